@@ -365,7 +365,7 @@ func dumpAST(sb *strings.Builder, a parser2.AST) {
 
 var c15gens struct {
 	plain, comments, noopt, nooptPlain *value.FunctionGenerator
-	comfort, comfortC      *funcGen.FunctionGenerator[float64]
+	comfort, comfortC                  *funcGen.FunctionGenerator[float64]
 }
 
 func c15init() {
